@@ -39,6 +39,9 @@ PP == In.p
 NN == Len(XX)
 All == XX \o In.Z
 St == Stats(XX, PP)
+\* unit of column j: the real value of an entry is the integer divided by Dn(j) = 2^sh[j] (exact in binary floating
+\* point).  Fitted parameters are logged in the unit of the integers, outputs as they are (see Scaling.tla).
+Dn(j) == Pow2(In.sh[j])
 
 Sl  == 1                                   \* cells, offsets, means (grid units of 1/S)
 SlP == 2                                   \* scales (grid units of 1/SP)
@@ -66,10 +69,10 @@ RankOk == Kind # "wh" \/ FullRank(XX, PP)
 (* fit *)
 FitLinOk ==
   /\ Ev.ok
-  /\ Ev.nfo = <<>> /\ Ev.nfs = <<>>
-  /\ Len(Ev.off) = PP /\ Len(Ev.sc) = PP
+  /\ Ev.nfo = <<>> /\ Ev.nfs = <<>> /\ Ev.nfs1 = <<>>
+  /\ Len(Ev.off) = PP /\ Len(Ev.sc) = PP /\ Len(Ev.sc1) = PP
   /\ LET st == St IN
-     \A j \in 1..PP : LinFitOk(In.meth, st[j], Ev.off[j], Ev.sc[j], Sl, SlP)
+     \A j \in 1..PP : LinFitOk(In.meth, st[j], Ev.off[j], Ev.sc[j], Ev.sc1[j], Sl, SlP)
 
 FitWhOk ==
   /\ Ev.ok
@@ -97,8 +100,14 @@ FitEv == Case.ev[1]
 
 CellsOk(rows) ==
   CASE Kind = "lin"  -> LET st == St IN
-                        \A r \in 1..Len(rows) : \A j \in 1..PP :
-                          LinCellOk(In.meth, In.lo, In.hi, st[j], All[rows[r]][j], Ev.out[r][j], Sl)
+                        /\ \A r \in 1..Len(rows) : \A j \in 1..PP :
+                             LinCellOk(In.meth, In.lo, In.hi, st[j], All[rows[r]][j], Ev.out[r][j], Sl, Dn(j))
+                        \* variants that leave the values in the unit of the data: the same outputs converted by the
+                        \* harness to the unit of the integers (times 2^sh[j], exact), where the grid resolves them
+                        /\ In.meth \in {"nostd", "none"} =>
+                             /\ Ev.nfu = <<>> /\ Len(Ev.outu) = Len(rows)
+                             /\ \A r \in 1..Len(rows) : \A j \in 1..PP :
+                                  LinCellOk(In.meth, In.lo, In.hi, st[j], All[rows[r]][j], Ev.outu[r][j], Sl, 1)
     [] Kind = "norm" -> \A r \in 1..Len(rows) : NormRowOk(In.meth, All[rows[r]], Ev.out[r], Sl)
     [] Kind = "wh"   -> LET st == St IN
                         /\ FitEv.ev = "fit" /\ FitEv.ok
@@ -108,7 +117,7 @@ CellsOk(rows) ==
 \* the normalisation reached on the training data, from the logged outputs
 PostOk ==
   CASE Kind = "lin"  -> LET st == St IN
-                        \A j \in 1..PP : LinPostOk(In.meth, In.lo, In.hi, st[j], Col(Ev.out, j), Sl)
+                        \A j \in 1..PP : LinPostOk(In.meth, In.lo, In.hi, st[j], Col(Ev.out, j), Sl, Dn(j))
     [] Kind = "norm" -> TRUE                       \* unit norms are part of NormRowOk (every batch)
     [] Kind = "wh"   -> WhCovOk(Ev.out, PP, SlW) \/ (SvdLoose /\ WhCovOk(Ev.out, PP, SlWLoose))
 
